@@ -74,54 +74,59 @@ Qed.
 (* ---- constructGeomCompT4 ---- *)
 (* volume k (entry v) is emitted and owned by a cell named n *)
 Definition attached (vols : dict vol) (cells : dict cell) (n : string) (k : Z) : Prop :=
-  exists v c, In (k, v) vols /\ v_fictive v = false /\
-              lookup (vol_source k v) cells = Some c /\ n = material_name c.
+  exists v c z, In (k, v) vols /\ v_fictive v = false /\
+                lookup (vol_source k v) cells = Some c /\ int_of_token (c_mat c) = Some z /\
+                n = material_name z c.
 
 Lemma geomcomp_from_spec cells : forall vols g g',
   geomcomp_from vols cells g = Ok g' ->
   (forall n k, member g' n k <-> member g n k \/ attached vols cells n k) /\
   (NoDup (map fst g) -> NoDup (map fst g')) /\
   (Forall (fun nl => snd nl <> []) g -> Forall (fun nl => snd nl <> []) g') /\
-  (forall k v, In (k, v) vols -> v_fictive v = false -> lookup (vol_source k v) cells <> None).
+  (forall k v, In (k, v) vols -> v_fictive v = false ->
+     exists c z, lookup (vol_source k v) cells = Some c /\ int_of_token (c_mat c) = Some z).
 Proof.
   induction vols as [|[k v] r IH]; intros g g' H; simpl in H.
   - inversion H; subst. split; [|split; [|split]]; [| intros Hx; exact Hx | intros Hx; exact Hx |].
     + intros n k. split.
       * intros Hm. now left.
-      * intros [Hm|[v [c [[] _]]]]. exact Hm.
+      * intros [Hm|[v [c [z [[] _]]]]]. exact Hm.
     + intros k v [].
   - destruct (v_fictive v) eqn:Ef.
     + destruct (IH g g' H) as [M [N [E L]]]. split; [|split; [|split]]; [| exact N | exact E |].
       * intros n k'. split.
-        -- intros Hm. apply M in Hm. destruct Hm as [Hm|[v' [c [Hin Hr]]]]; [now left|].
-           right. exists v', c. split; [now right | exact Hr].
-        -- intros [Hm|[v' [c [[Hin|Hin] [Hf Hr]]]]]; apply M; [now left | | ].
+        -- intros Hm. apply M in Hm. destruct Hm as [Hm|[v' [c [z [Hin Hr]]]]]; [now left|].
+           right. exists v', c, z. split; [now right | exact Hr].
+        -- intros [Hm|[v' [c [z [[Hin|Hin] [Hf Hr]]]]]]; apply M; [now left | | ].
            ++ inversion Hin; subst. rewrite Ef in Hf. discriminate.
-           ++ right. exists v', c. auto.
+           ++ right. exists v', c, z. auto.
       * intros k' v' [Hin|Hin] Hf; [inversion Hin; subst; rewrite Ef in Hf; discriminate | eauto].
     + destruct (lookup (vol_source k v) cells) as [c|] eqn:El; [|discriminate].
+      destruct (int_of_token (c_mat c)) as [z|] eqn:Ez; [|discriminate].
       destruct (IH _ g' H) as [M [N [E L]]]. split; [|split; [|split]].
       * intros n k'. split.
-        -- intros Hm. apply M in Hm. destruct Hm as [Hm|[v' [c' [Hin Hr]]]].
+        -- intros Hm. apply M in Hm. destruct Hm as [Hm|[v' [c' [z' [Hin Hr]]]]].
            ++ apply member_group_add in Hm. destruct Hm as [Hm|[-> ->]]; [now left|].
-              right. exists v, c. split; [now left | auto].
-           ++ right. exists v', c'. split; [now right | exact Hr].
-        -- intros [Hm|[v' [c' [[Hin|Hin] [Hf [Hl Hn]]]]]]; apply M.
+              right. exists v, c, z. split; [now left | auto].
+           ++ right. exists v', c', z'. split; [now right | exact Hr].
+        -- intros [Hm|[v' [c' [z' [[Hin|Hin] [Hf [Hl [Hz Hn]]]]]]]]; apply M.
            ++ left. apply member_group_add. now left.
            ++ inversion Hin; subst. rewrite El in Hl. inversion Hl; subst.
+              rewrite Ez in Hz. inversion Hz; subst.
               left. apply member_group_add. right. auto.
-           ++ right. exists v', c'. auto.
+           ++ right. exists v', c', z'. auto.
       * intros Hnd. apply N. now apply names_group_add.
       * intros Hne. apply E. now apply nonempty_group_add.
-      * intros k' v' [Hin|Hin] Hf; [inversion Hin; subst; rewrite El; discriminate | eauto].
+      * intros k' v' [Hin|Hin] Hf; [inversion Hin; subst; exists c, z; auto | eauto].
 Qed.
 
 Theorem geomcomp_name vols cells g :
   geomcomp vols cells = Ok g ->
-  (* every emitted non-virtual volume is on the line named after the cell at
-     the head of its provenance *)
+  (* every emitted non-virtual volume is on the line named after the material
+     NUMBER and the density of the cell at the head of its provenance *)
   (forall k v, In (k, v) vols -> v_fictive v = false ->
-     exists c, lookup (vol_source k v) cells = Some c /\ member g (material_name c) k) /\
+     exists c z, lookup (vol_source k v) cells = Some c /\ int_of_token (c_mat c) = Some z /\
+                 member g (material_name z c) k) /\
   (* and the lines hold nothing else *)
   (forall n k, member g n k -> attached vols cells n k) /\
   (* one line per name, no empty line *)
@@ -129,9 +134,8 @@ Theorem geomcomp_name vols cells g :
 Proof.
   unfold geomcomp. intros H. destruct (geomcomp_from_spec cells vols [] g H) as [M [N [E L]]].
   split; [|split; [|split]].
-  - intros k v Hin Hf. destruct (lookup (vol_source k v) cells) as [c|] eqn:El.
-    + exists c. split; [reflexivity|]. apply M. right. exists v, c. auto.
-    + exfalso. eapply L; eauto.
+  - intros k v Hin Hf. destruct (L k v Hin Hf) as [c [z [Hc Hz]]].
+    exists c, z. split; [exact Hc|]. split; [exact Hz|]. apply M. right. exists v, c, z. auto.
   - intros n k Hm. apply M in Hm. destruct Hm as [Hm|Hm]; [now apply member_nil in Hm | exact Hm].
   - apply N. constructor.
   - apply E. constructor.
@@ -155,10 +159,10 @@ Theorem geomcomp_one_line vols cells g :
   forall n n' k, member g n k -> member g n' k -> n = n'.
 Proof.
   intros H Hnd n n' k H1 H2. destruct (geomcomp_name vols cells g H) as [_ [A _]].
-  destruct (A _ _ H1) as [v [c [Hin [_ [Hl ->]]]]].
-  destruct (A _ _ H2) as [v' [c' [Hin' [_ [Hl' ->]]]]].
+  destruct (A _ _ H1) as [v [c [z [Hin [_ [Hl [Hz ->]]]]]]].
+  destruct (A _ _ H2) as [v' [c' [z' [Hin' [_ [Hl' [Hz' ->]]]]]]].
   assert (v = v') by (eapply in_dict_unique; eauto). subst v'.
-  rewrite Hl in Hl'. inversion Hl'; reflexivity.
+  rewrite Hl in Hl'. inversion Hl'; subst c'. rewrite Hz in Hz'. inversion Hz'; reflexivity.
 Qed.
 
 (* the written lines: 'm' + name, count, volumes *)
@@ -171,11 +175,11 @@ Proof.
   intros H. inversion H. eauto.
 Qed.
 
-(* void: the material token alone ('0' gives the line m0) *)
-Lemma material_name_void c : c_dens c = None -> material_name c = c_mat c.
+(* void: the material number alone (every spelling of 0 gives the line m0) *)
+Lemma material_name_void z c : c_dens c = None -> material_name z c = dec_Z z.
 Proof. unfold material_name. now intros ->. Qed.
 
-Lemma material_name_dens c d : c_dens c = Some d -> material_name c = (c_mat c ++ "_" ++ d)%string.
+Lemma material_name_dens z c d : c_dens c = Some d -> material_name z c = (dec_Z z ++ "_" ++ d)%string.
 Proof. unfold material_name. now intros ->. Qed.
 
 (* ---- composition names ---- *)
@@ -270,48 +274,43 @@ Proof.
     rewrite in_map_iff. intros [d' [He Hd']]. apply (sapp_inj_l (comp_prefix key)) in He. subst d'. exact (Hd Hd').
 Qed.
 
-(* GEOMCOMP refers to a composition that exists: for a live cell whose
-   material token is the canonical spelling of its number *)
+(* GEOMCOMP refers to a composition that exists, whatever the spelling of the
+   material number on the cell card *)
 Theorem geomcomp_name_has_composition key cells l k c d :
   comp_names key cells = Ok l -> dens_normal cells ->
   In (k, c) cells -> live c = true -> int_of_token (c_mat c) = Some key ->
-  c_mat c = dec_Z key -> c_dens c = Some d ->
-  In ("m" ++ material_name c)%string l.
+  c_dens c = Some d ->
+  In ("m" ++ material_name key c)%string l.
 Proof.
-  intros H Hn Hin Hl Hm Hc Hd. destruct (comp_names_spec key cells l H Hn) as [S _].
+  intros H Hn Hin Hl Hm Hd. destruct (comp_names_spec key cells l H Hn) as [S _].
   apply S. exists d. split; [exists k, c; auto|].
-  rewrite (material_name_dens c d Hd), Hc. unfold comp_prefix. simpl. f_equal.
+  rewrite (material_name_dens key c d Hd). unfold comp_prefix. simpl. f_equal.
   now rewrite sapp_assoc.
 Qed.
 
-(* same material, different density strings: different composition names
+(* same material number, different density strings: different composition names
    (a fortiori for numerically different densities, whatever the reading [value]) *)
-Theorem compositions_distinct (X : Type) (value : string -> X) c1 c2 d1 d2 :
-  c_mat c1 = c_mat c2 -> c_dens c1 = Some d1 -> c_dens c2 = Some d2 ->
-  (value d1 <> value d2 -> material_name c1 <> material_name c2) /\
-  (d1 = d2 -> material_name c1 = material_name c2).
+Theorem compositions_distinct (X : Type) (value : string -> X) z c1 c2 d1 d2 :
+  c_dens c1 = Some d1 -> c_dens c2 = Some d2 ->
+  (value d1 <> value d2 -> material_name z c1 <> material_name z c2) /\
+  (d1 = d2 -> material_name z c1 = material_name z c2).
 Proof.
-  intros Hm H1 H2. rewrite (material_name_dens _ _ H1), (material_name_dens _ _ H2), Hm. split.
+  intros H1 H2. rewrite (material_name_dens _ _ _ H1), (material_name_dens _ _ _ H2). split.
   - intros Hv He. apply sapp_inj_l in He. simpl in He. inversion He. subst. now apply Hv.
   - now intros ->.
 Qed.
 
-(* DESIGN 8 #16: a material token with a leading zero *)
-Definition lz_cell : cell := mkCell "01" (Some "-1.0") 1 0 None [].
-
-Theorem material_leading_zero_refuted :
-  exists key cells l k c, comp_names key cells = Ok l /\ In (k, c) cells /\ live c = true /\
-    int_of_token (c_mat c) = Some key /\ ~ In ("m" ++ material_name c)%string l.
-Proof.
-  exists 1%Z, [(1%Z, lz_cell)], ["m1_-1.0"%string], 1%Z, lz_cell.
-  repeat split; try reflexivity; [now left|]. vm_compute. intros [H|[]]. discriminate.
-Qed.
+(* two spellings of one material number give one name *)
+Lemma material_name_spelling z c1 c2 :
+  int_of_token (c_mat c1) = Some z -> int_of_token (c_mat c2) = Some z -> c_dens c1 = c_dens c2 ->
+  material_name z c1 = material_name z c2.
+Proof. intros _ _ H. unfold material_name. now rewrite H. Qed.
 
 (* ---- provenance and GEOMCOMP together ---- *)
 From T4V Require Import C09.ProofsFill.
 
-Lemma material_name_eq c L : c_mat c = c_mat L -> c_dens c = c_dens L -> material_name c = material_name L.
-Proof. unfold material_name. now intros -> ->. Qed.
+Lemma material_name_eq z c L : c_dens c = c_dens L -> material_name z c = material_name z L.
+Proof. unfold material_name. now intros ->. Qed.
 
 (* the volumes of the cells returned by the "treat FILL" loop (each volume
    carries its cell's idorigin, as pot_to_t4_cell passes it on) are attached to
@@ -324,19 +323,17 @@ Theorem volume_gets_leaf_material : forall fuel d0 next st' ks vols g,
      In k ks /\ exists c, lookup k (fst st') = Some c /\ v_origin v = c_origin c) ->
   geomcomp vols (fst st') = Ok g ->
   forall k v, In (k, v) vols -> v_fictive v = false ->
-    exists L, lookup (head_of (fst st') k) d0 = Some L /\ c_fill L = None /\
-              member g (material_name L) k.
+    exists L z, lookup (head_of (fst st') k) d0 = Some L /\ c_fill L = None /\
+                int_of_token (c_mat L) = Some z /\ member g (material_name z L) k.
 Proof.
   intros fuel d0 next st' ks vols g Hpr Hfr Ht Hv Hg k v Hin Hf.
   destruct (provenance_head_is_leaf fuel d0 next st' ks Hpr Hfr Ht) as [_ [Hfin Hx]].
   destruct (Hv k v Hin Hf) as [Hk [c [Hc Ho]]].
   rewrite Forall_forall in Hfin. destruct (Hfin k Hk) as [c' [L [H1 [H2 [H3 [H4 [H5 [H6 _]]]]]]]].
   rewrite Hc in H1. inversion H1; subst c'.
-  exists L. unfold head_of. rewrite Hc. split; [exact H3|]. split; [exact H4|].
   destruct (geomcomp_name vols (fst st') g Hg) as [A _].
-  destruct (A k v Hin Hf) as [cs [Hcs Hm]].
+  destruct (A k v Hin Hf) as [cs [z [Hcs [Hz Hm]]]].
   assert (Hsrc : vol_source k v = origin_head k c) by (unfold vol_source, origin_head; now rewrite Ho).
   rewrite Hsrc, (Hx _ _ H3) in Hcs. inversion Hcs; subst cs.
-  (* the cell looked up by GEOMCOMP is L itself *)
-  exact Hm.
+  exists L, z. unfold head_of. rewrite Hc. repeat split; auto.
 Qed.
